@@ -2,7 +2,7 @@ ID = "C18"
 TESTS = [
     T("nfs41sim", "TestC18NFS41StateAccounting",
       {"checks": 5000, "shards": 2, "timeout": 300, "args": ["-rapid.shrinktime=15s"]},
-      {"checks": 30000, "shards": 16, "timeout": 1500}),
+      {"checks": 30000, "shards": 5, "timeout": 1500}),
     T("nfs41sim", "TestC18Regress.*",
       {"checks": 1, "shards": 1, "timeout": 120},
       {"checks": 1, "shards": 1, "timeout": 120}, plain=True),
